@@ -98,6 +98,7 @@ func runC18(args []string) error {
 			"byte strings (minimal, sign-padded, random up to 40 bytes) through FromBytes; Base58/Base58Check/address strings (leading zeros, wrong characters, wrong payload lengths and prefixes); "+
 			"fixed-point decimals at the int64 edges, negative fractions and malformed texts; Uint160/256 forms; Merkle roots of lists of length 0..40 with repeated hashes; "+
 			"m-of-n multi-signature configurations (repeated keys, invalid signatures, malformed keys) on the real VM under GOMAXPROCS 1/2/4/8; ECDSA/WIF/NEP-2/key laws (direct); "+
+			"the same lattice through emit.BigInt/Int/Any/StackItem/Array (script against the emitter and PUSHINT* models, run on the real VM), ToPreallocatedBytes, Parameter, compiler literals; "+
 			"NEP-2 with passphrases outside ASCII (pairs that are identical / NFC-equal in another spelling / NFKC-equal only / different; empty, long, NUL, invalid UTF-8), damaged NEP-2 envelopes, look-alikes outside ASCII of valid addresses, WIFs, keys, hashes and decimals into every text decoder; "+
 			"non-trivial: non-empty byte string / fractional or negative decimal / list of two or more hashes / two or more signatures / two passphrases that differ in bytes and are NFC- or NFKC-equal; distinct by Coq term")
 	co.shard = 120
@@ -164,6 +165,7 @@ func runC18(args []string) error {
 		}
 		c18Run(co, "bigint_dec", c18Input{Bytes: hx(b)})
 	}
+	c18EmitGenerate(co, r, cf, ints)
 	c18xGenerate(co, r, cf)
 	return co.finish()
 }
